@@ -1,7 +1,7 @@
 (** C19 - correspondence (wire model and declaration model vs. bincode / serde_derive as run by the
     harness) and the property oracle evaluated on the implementation's outputs. *)
 From Coq Require Import List String Ascii NArith ZArith Bool.
-From LinfaVerif Require Export Common.Run C19.Model gen.C19_types.
+From LinfaVerif Require Export Common.Run C19.Model C19.Json gen.C19_types.
 Import ListNotations.
 Local Open Scope N_scope.
 
@@ -14,7 +14,24 @@ Inductive case :=
         (unordered : list string)      (* struct fields that hold hash sets: compared as sorted sequences *)
 | Refused (id : N) (ty variant : string)   (* bincode::serialize returned an error for this variant *)
 | Nominal (id : N) (ty : string)           (* a deriving type the harness cannot instantiate at all *)
-| Sweep (id : N) (seen : list string).     (* names of all struct / enum types recorded during the run *)
+| Sweep (id : N) (seen : list string)      (* names of all struct / enum types recorded during the run *)
+| JRound (id : N) (ty : string)
+         (tree : value) (sh : shape)       (* the value as serde_json serialised it, its shape *)
+         (parsed : option pjson)           (* the text serde_json wrote, parsed by the harness' own reader; None = refused *)
+         (restored : option value)         (* tree of serde_json::from_str(text); None = refused *)
+         (unordered : list string)
+| Zoo (id : N) (ty : string)               (* a type of the harness' attribute zoo (gen.zoo_declared) *)
+      (vidx : N)                           (* enums: position of the variant; structs: 0 *)
+      (ins : list fin)                     (* every field (skipped ones included): value, fill-in value, skip_serializing_if outcome *)
+      (accepts : list bool)                (* untagged enums: which variants' payload types accept the payload's JSON *)
+      (tree : option value)                (* what Serialize handed over; None = refused *)
+      (bin js : zres)                      (* through bincode / serde_json *)
+| History (id : N) (ty : string)           (* incremental fits: never serialised vs. serialised and restored before every batch *)
+          (never restored : value) (unordered : list string)
+with zres :=
+| ZRefused                                 (* serialisation refused *)
+| ZFail                                    (* deserialisation failed *)
+| ZBack (vidx : N) (fields : list value).  (* came back: variant position, every field *)
 
 (* ---- hex ---- *)
 Definition hexval (c : ascii) : N :=
@@ -42,7 +59,6 @@ Fixpoint insert_by {A} (key : A -> list N) (x : A) (l : list A) : list A :=
   | y :: r => if lex_ltb (key y) (key x) then y :: insert_by key x r else x :: l
   end.
 Definition sort_by {A} (key : A -> list N) (l : list A) : list A := fold_right (insert_by key) [] l.
-Definition mem (s : string) (l : list string) : bool := existsb (String.eqb s) l.
 Definition sort_seq (v : value) : value :=
   match v with
   | VSeq l => VSeq (sort_by encode l)
@@ -82,7 +98,7 @@ Definition node_layout_ok (v : value) : bool :=
   | VStruct k n fs =>
       match find_decl declared n with
       | Some d => match td_body d with
-                  | BStruct k' fds => skind_eqb k k' && strs_eqb (map fst fs) (wire_field_names fds)
+                  | BStruct k' fds => skind_eqb k k' && layout_ok fds (map fst fs)
                   | BEnum _ => false
                   end
       | None => true       (* a type of another crate (ndarray, sprs, rand, ...) *)
@@ -98,7 +114,7 @@ Definition variant_layout_ok (v : value) : bool :=
                       match nth_N vs i with
                       | Some vd => String.eqb vn (vd_wire vd) && skind_eqb k (vd_kind vd) &&
                                    negb (skips_ser (vd_attrs vd)) &&
-                                   strs_eqb (map fst fs) (wire_field_names (vd_fields vd))
+                                   layout_ok (vd_fields vd) (map fst fs)
                       | None => false
                       end
                   | BStruct _ _ => false
@@ -116,6 +132,33 @@ Definition variant_roundtrips (v : value) : bool :=
       match find_decl declared n with
       | Some d => match td_body d with
                   | BEnum vs => match de_variant vs i with Some p => N.of_nat p =? i | None => false end
+                  | BStruct _ _ => true
+                  end
+      | None => true
+      end
+  | _ => true
+  end.
+
+(** the declaration model's prediction for the fields: positionally a struct / variant comes back only when the
+    members that were written are exactly the fields that are read (a field under skip_serializing, under
+    skip_deserializing, or under a skip_serializing_if that fired breaks the alignment; `skip` does not) *)
+Definition node_pos_aligned (v : value) : bool :=
+  match v with
+  | VStruct _ n fs =>
+      match find_decl declared n with
+      | Some d => match td_body d with
+                  | BStruct _ fds => strs_eqb (map fst fs) (map fd_wire (filter f_read fds))
+                  | BEnum _ => true
+                  end
+      | None => true
+      end
+  | VEnum n i _ _ fs =>
+      match find_decl declared n with
+      | Some d => match td_body d with
+                  | BEnum vs => match nth_N vs i with
+                                | Some vd => strs_eqb (map fst fs) (map fd_wire (filter f_read (vd_fields vd)))
+                                | None => true
+                                end
                   | BStruct _ _ => true
                   end
       | None => true
@@ -148,7 +191,7 @@ Definition corr_round (tree : value) (sh : shape) (bytes : list N) (restored : o
                                 | Some (t, []) => value_eqb t tree
                                 | _ => false
                                 end else true) in
-  let predicted := all_nodes variant_roundtrips tree in
+  let predicted := all_nodes variant_roundtrips tree && all_nodes node_pos_aligned tree in
   let observed := match restored with Some t => value_eqb (canon un t) (canon un tree) | None => false end in
   (flag enc_ok 1 + flag dec_ok 2 + flag (all_nodes node_layout_ok tree) 4
    + flag (all_nodes variant_layout_ok tree) 8 + flag (Bool.eqb predicted observed) 16)%N.
@@ -159,6 +202,133 @@ Definition oracle_round (tree : value) (restored : option value) (un : list stri
    | None => 8
    end
    + flag (all_nodes node_decl_lossless tree) 4)%N.
+
+(* ---- the self-describing format ---- *)
+(** serde_json's own number reader (no float_roundtrip) may be a few ulp off: calibrated bound, see props/C19.json *)
+Definition json_ulps : Z := 4%Z.
+Definition keys_ok (v : value) : bool :=
+  all_nodes (fun x => match x with VMap l => forallb (fun kv => key_ok (fst kv)) l | _ => true end) v.
+Definition corr_json (tree : value) (sh : shape) (parsed : option pjson) (restored : option value) (un : list string) : N :=
+  let text_ok := match parsed with
+                 | Some p => keys_ok tree && jmatch 0 (to_json tree) p       (* the rendering, token for token *)
+                 | None => negb (keys_ok tree)                               (* "key must be a string" *)
+                 end in
+  let back_ok := match parsed with
+                 | None => true
+                 | Some _ => match of_json sh (to_json tree), restored with
+                             | Some t, Some r => value_close json_ulps (canon un t) (canon un r)
+                             | None, None => true
+                             | _, _ => false
+                             end
+                 end in
+  (flag text_ok 256 + flag back_ok 512)%N.
+(** the property itself, where JSON can express the value: it comes back, floats within the bound *)
+Definition oracle_json (tree : value) (sh : shape) (restored : option value) (un : list string) : N :=
+  if json_typed tree sh then
+    match restored with
+    | Some r => flag (value_close json_ulps (canon un tree) (canon un r)) 128
+    | None => 128
+    end
+  else 0.
+
+(* ---- the attribute zoo: the derive model against serde_derive itself ---- *)
+Definition zres_eqb (a b : zres) : bool :=
+  match a, b with
+  | ZRefused, ZRefused => true
+  | ZFail, ZFail => true
+  | ZBack i l, ZBack j m => (i =? j) && forall2b value_eqb l m
+  | _, _ => false
+  end.
+Definition decl_opaque (d : type_decl) : bool :=
+  negb (no_opaque (td_attrs d)) ||
+  match td_body d with
+  | BStruct _ fs => existsb (fun f => negb (no_opaque (fd_attrs f))) fs
+  | BEnum vs => existsb (fun v => negb (no_opaque (vd_attrs v)) || existsb (fun f => negb (no_opaque (fd_attrs f))) (vd_fields v)) vs
+  end.
+(** positional prediction for a list of fields; [p]: the variant position reported back *)
+Definition pos_fields_ok (p : N) (fds : list field_decl) (ins : list fin) (bin : zres) : bool :=
+  if negb (pos_serializable fds) then zres_eqb bin ZRefused
+  else match de_pos fds ins (ser_pos fds ins) with
+       | Some l => zres_eqb bin (ZBack p l)
+       | None => negb (zres_eqb bin (ZBack p (map in_val ins))) && negb (zres_eqb bin ZRefused)
+       end.
+Definition key_fields_ok_b (p : N) (deny cd : bool) (fds : list field_decl) (ins : list fin) (js : zres) : bool :=
+  match de_key deny cd fds ins (ser_pos fds ins) with
+  | Some l => zres_eqb js (ZBack p l)
+  | None => zres_eqb js ZFail
+  end.
+Fixpoint index_of (n : string) (vs : list variant_decl) (pos : nat) : nat :=
+  match vs with [] => pos | v :: r => if String.eqb (vd_name v) n then pos else index_of n r (S pos) end.
+Definition same_variant (q : nat) (r : zres) : bool := match r with ZBack i _ => i =? N.of_nat q | _ => false end.
+
+Definition corr_zoo (ty : string) (vidx : N) (ins : list fin) (accepts : list bool) (tree : option value) (bin js : zres) : N :=
+  match find_decl zoo_declared ty with
+  | None => 8192
+  | Some d =>
+      if negb (N.of_nat (List.length ins) =? N.of_nat (List.length (match td_body d with
+                                                                     | BStruct _ fds => fds
+                                                                     | BEnum vs => match nth_error vs (N.to_nat vidx) with Some v => vd_fields v | None => [] end
+                                                                     end))) then 8192
+      else if decl_opaque d then 0                      (* user code decides: no prediction *)
+      else
+      match td_body d with
+      | BStruct k fds =>
+          let flat := existsb f_flatten fds in
+          let tree_ok := match tree with
+                         | Some t => if flat then value_eqb t (VMap (map (fun kv => (VStr (fst kv), snd kv)) (ser_key_flat fds ins)))
+                                     else value_eqb t (ser_container d k fds ins)
+                         | None => false
+                         end in
+          let bin_ok := pos_fields_ok 0 fds ins bin in
+          let js_ok := if flat then match de_key_flat (c_default d) fds ins (ser_key_flat fds ins) with
+                                    | Some l => zres_eqb js (ZBack 0 l)
+                                    | None => zres_eqb js ZFail
+                                    end
+                       else key_fields_ok_b 0 (c_deny d) (c_default d) fds ins js in
+          (flag tree_ok 1024 + flag bin_ok 2048 + flag js_ok 4096)%N
+      | BEnum vs =>
+          let p := N.to_nat vidx in
+          match nth_error vs p with
+          | None => 8192
+          | Some v =>
+              if skips_ser (vd_attrs v) then
+                (flag (match tree with None => true | Some _ => false end) 1024
+                 + flag (zres_eqb bin ZRefused) 2048 + flag (zres_eqb js ZRefused) 4096)%N
+              else
+              let r := repr_of (td_attrs d) in
+              let fds := vd_fields v in
+              let tree_ok := match r, tree with
+                             | RExternal, Some t => value_eqb t (VEnum (td_wire d) vidx (vd_wire v) (vd_kind v) (ser_pos fds ins))
+                             | RExternal, None => false
+                             | _, Some _ => true
+                             | _, None => false
+                             end in
+              let bin_ok := if repr_pos_ok r then
+                              match ser_variant vs p with
+                              | None => zres_eqb bin ZRefused
+                              | Some i => match de_variant vs i with
+                                          | Some q => if Nat.eqb q p then pos_fields_ok vidx fds ins bin
+                                                      else negb (zres_eqb bin (ZBack vidx (map in_val ins))) && negb (zres_eqb bin ZRefused)
+                                          | None => zres_eqb bin ZFail
+                                          end
+                              end
+                            else zres_eqb bin ZFail in
+              let by_key := match vd_kind v with KNamed => key_fields_ok_b vidx false false fds ins js
+                                                 | _ => zres_eqb js (ZBack vidx (map in_val ins)) end in
+              let js_ok := if repr_key_by_name r then
+                             match de_variant_key vs (vd_wire v) with
+                             | Some q => if Nat.eqb q p then by_key else same_variant q js
+                             | None => zres_eqb js ZFail
+                             end
+                           else
+                             match de_untagged (fun w (_ : unit) => nth (index_of (vd_name w) vs 0) accepts false) vs tt with
+                             | Some q => if Nat.eqb q p then by_key else same_variant q js
+                             | None => zres_eqb js ZFail
+                             end in
+              (flag tree_ok 1024 + flag bin_ok 2048 + flag js_ok 4096)%N
+          end
+      end
+  end.
 
 Definition refused_by_decl (ty variant : string) : bool :=
   match find_decl declared ty with
@@ -179,8 +349,11 @@ Definition run_case (c : case) : verdict :=
   | Nominal id ty =>
       (id, (flag (uninhabitable ty) 64, if uninhabitable ty then 64 else 0))
   | Sweep id seen =>
-      (id, (flag (forallb (fun d => mem (td_name d) seen || mem (td_name d) exempt_private
+      (id, (flag (forallb (fun d => mem (td_wire d) seen || mem (td_name d) exempt_private
                                     || uninhabitable (td_name d)) declared) 128, 0))
+  | JRound id _ tree sh parsed restored un => (id, (corr_json tree sh parsed restored un, oracle_json tree sh restored un))
+  | Zoo id ty vidx ins accepts tree bin js => (id, (corr_zoo ty vidx ins accepts tree bin js, 0))
+  | History id _ a b un => (id, (0, flag (value_eqb (canon un a) (canon un b)) 1024))
   end%N.
 
 Definition run_cases (cs : list case) : list N := report (map run_case cs).
